@@ -1,10 +1,101 @@
 /-
   EG.Driver.Image — model side of the `image.*` correspondence streams (harness/src/m_image.rs).
+
+  <img> = `<bits> <order 0|1> <w> <h> <bytes>`      (order 0 = LittleEndianMsb0, 1 = BigEndianLsb0)
+  <obj> = `<img> <ox> <oy> <mode> <nsub> [<ax> <ay> <aw> <ah>]*nsub`
+          mode 0: `Image::new(d, (ox,oy))`, mode 1: `Image::with_center(d, (ox,oy))`;
+          `d` = the raw image with `sub_image(area)` applied `nsub` times (0..=2)
+
+  image.new   <bits> <order> <w> <h> <len>     -> `ok` | `err:<expected_data_size>`
+  image.pixel <img>                            -> `pixel()` for y in -1..=h, x in -1..=w (comma list)
+  image.draw  <obj> <bx> <by> <bw> <bh>        -> `bb=<rect> r1=<map> r2=<map> log1=<calls> log2=<calls>`
+  image.move  <obj> <dx> <dy>                  -> `bb=<rect> mut=<1|0> r1=<map>` of `.translate((dx,dy))`
+  (`err:<expected>` when `ImageRaw::new` rejects the buffer)
 -/
 import EG.Driver.Util
+import EG.Model.ImageRaw
 namespace EG.Driver
-open EG
+open EG EG.Raw EG.Img
 
-def handleImage (_stream : String) (_t : Toks) : Option String := none
+def imgOrderOf : Nat → Order
+  | 0 => .le
+  | _ => .be
+
+def imgFmtOpt : Option Nat → String
+  | some v => toString v
+  | none => "none"
+
+def imgFmtCall : Call → String
+  | .drawIter px => "di:" ++ fmtPix px
+  | .fillContiguous a cs => s!"fc:{fmtRect a}:{fmtNats cs}"
+  | .fillSolid a c => s!"fs:{fmtRect a}:{c}"
+  | .clear c => s!"cl:{c}"
+
+def imgFmtLog (cs : List Call) : String := joinOr "|" (cs.map imgFmtCall)
+
+/-- the box of `Rec::unbounded()` -/
+def imgUnbounded : Rect := ⟨⟨-1048576, -1048576⟩, ⟨2097152, 2097152⟩⟩
+
+def imgParseRaw (t : Toks) : Except Nat ImageRaw × Toks :=
+  let (bits, t) := t.nat
+  let (o, t) := t.nat
+  let (sz, t) := t.sz
+  let (bytes, t) := t.natList
+  (ImageRaw.new bits (imgOrderOf o) bytes sz, t)
+
+def imgSubs : Nat → Drawable → Toks → Drawable × Toks
+  | 0, d, t => (d, t)
+  | n + 1, d, t =>
+    let (a, t) := t.rect
+    imgSubs n (d.subImage a) t
+
+def imgParseObj (im : ImageRaw) (t : Toks) : Image × Toks :=
+  let (o, t) := t.pt
+  let (mode, t) := t.nat
+  let (nsub, t) := t.nat
+  let (d, t) := imgSubs nsub (.raw im) t
+  (if mode = 0 then Image.new d o else Image.withCenter d o, t)
+
+def handleImage (stream : String) (t : Toks) : Option String :=
+  match stream with
+  | "image.new" =>
+    let (bits, t) := t.nat
+    let (o, t) := t.nat
+    let (sz, t) := t.sz
+    let (len, _) := t.nat
+    match ImageRaw.new bits (imgOrderOf o) (List.replicate len 0) sz with
+    | .ok _ => some "ok"
+    | .error e => some s!"err:{e}"
+  | "image.pixel" =>
+    let (r, _) := imgParseRaw t
+    match r with
+    | .error e => some s!"err:{e}"
+    | .ok im =>
+      let ys := irange (-1) ((im.size.h : Int) + 1)
+      let xs := irange (-1) ((im.size.w : Int) + 1)
+      some (joinOr "," (ys.flatMap (fun y => xs.map (fun x => imgFmtOpt (im.pixel ⟨x, y⟩)))))
+  | "image.draw" =>
+    let (r, t) := imgParseRaw t
+    match r with
+    | .error e => some s!"err:{e}"
+    | .ok im =>
+      let (img, t) := imgParseObj im t
+      let (B, _) := t.rect
+      let calls := img.draw
+      let r1 := canonPix (calls.flatMap (Call.writesDefault B))
+      let r2 := canonPix (calls.flatMap (Call.writesNative B))
+      let log1 := calls.map (fun c => Call.drawIter (c.lowerDefault B))
+      some s!"bb={fmtRect img.boundingBox} r1={fmtPix r1} r2={fmtPix r2} log1={imgFmtLog log1} log2={imgFmtLog calls}"
+  | "image.move" =>
+    let (r, t) := imgParseRaw t
+    match r with
+    | .error e => some s!"err:{e}"
+    | .ok im =>
+      let (img, t) := imgParseObj im t
+      let (d, _) := t.pt
+      let moved := img.translate d
+      let r1 := canonPix (moved.draw.flatMap (Call.writesDefault imgUnbounded))
+      some s!"bb={fmtRect moved.boundingBox} mut={if img.translateMut d = moved then 1 else 0} r1={fmtPix r1}"
+  | _ => none
 
 end EG.Driver
